@@ -317,9 +317,78 @@ func c13Stress(col *concCollector, seed int64, dur time.Duration, only string) {
 				c13CleanupVsRefresh(col, st, seed*977+int64(i), i)
 			}
 			c13PersistentSigFailed(col, st, seed*613)
+			if st == "memory" {
+				c13FailedSwapVsClose(col, seed*389)
+			}
 		}(st)
 	}
 	wg.Wait()
+}
+
+// c13FailedSwapVsClose: the swap step of a refresh fails (real updateEntry, a store of the wrong backend) while shutdown
+// (Repository.Close) and a lookup run: three calls with opposite lock needs — entry lock then repository lock on the failure
+// path of the refresh would meet repository lock then entry lock of Close. Many short rounds with seeded microsecond jitter;
+// everything must return.
+func c13FailedSwapVsClose(col *concCollector, seed int64) {
+	rng := rand.New(rand.NewSource(seed))
+	ca := NewCA(CAOpts{CN: "C13 FS CA", EC: true})
+	origin := NewConcOrigin()
+	defer origin.Close()
+	rounds, stuck := 250, 0
+	for i := 0; i < rounds && stuck == 0; i++ {
+		path := fmt.Sprintf("/crl/fs/%d", i)
+		leaf := ca.IssueLeaf(LeafOpts{CDP: []string{origin.URL(path)}})
+		origin.SetBytes(path, ca.MakeCRL(CRLOpts{Serials: []*big.Int{leaf.Cert.SerialNumber}}))
+		v, err := Provision(VCfg{Mode: "crl_only", WorkDir: scratchDir("c13-fs"), Storage: "memory", UpdateInterval: "10h"})
+		if err != nil {
+			col.Violate("C13 provision-failed", "failed-swap-vs-close: "+err.Error(), nil)
+			return
+		}
+		chains := [][]*x509.Certificate{{leaf.Cert, ca.Cert}}
+		v.Verify(chains) // first use: loaded
+		repo := v.V.VerifCRLChecker().VerifRepository()
+		ents := repo.VerifEntries()
+		if len(ents) != 1 {
+			v.Close()
+			continue
+		}
+		wrong, werr := storeFactory("ldb", scratchDir("c13-fsw")).CreateStore("w", true)
+		if werr != nil {
+			v.Close()
+			continue
+		}
+		d1, d2, d3 := time.Duration(rng.Intn(30))*time.Microsecond, time.Duration(rng.Intn(30))*time.Microsecond, time.Duration(rng.Intn(30))*time.Microsecond
+		var wg sync.WaitGroup
+		start := make(chan struct{})
+		run := func(d time.Duration, f func()) {
+			wg.Add(1)
+			go func() {
+				defer wg.Done()
+				defer func() { recover() }()
+				<-start
+				time.Sleep(d)
+				f()
+			}()
+		}
+		run(d1, func() { _ = repo.VerifUpdateEntry(ents[0].Identifier, wrong) })
+		run(d2, func() { repo.Close() })
+		run(d3, func() { v.Verify(chains) })
+		close(start)
+		done := make(chan struct{})
+		go func() { wg.Wait(); close(done) }()
+		select {
+		case <-done:
+		case <-time.After(5 * c13CallTimeout):
+			stuck++
+			col.Violate("C13 deadlock failed-swap-vs-close", fmt.Sprintf("round %d: a refresh whose store swap fails, Repository.Close and a lookup were started together; not all of them returned within %s", i, 5*c13CallTimeout), nil)
+		}
+		wrong.Close()
+		if stuck == 0 {
+			v.Close()
+		}
+		col.Count("failed-swap-vs-close-round")
+	}
+	col.Eval("failed-swap-vs-close", true)
 }
 
 // c13PersistentSigFailed: the state "last refresh failed signature verification" made to LAST — the location serves a list
